@@ -83,7 +83,8 @@ def generate(seed, tier):
     seams.load_whoosh()
     cfg = RunConfig(crng, allow=[], force={"long_text_p": 0.0})
     return {"prop": ID, "seed": seed, "config": cfg.describe(), "docs": docs, "cuts": cuts,
-            "deletes": deletes, "probes": probes}
+            "deletes": deletes, "probes": probes,
+            "overlap": random.Random("%s/overlap" % seed).random() < 0.4}
 
 
 def build(s, record, cuts):
@@ -159,10 +160,33 @@ def probe(s, ix, record, layout):
     out = {}
     with ix.searcher() as srch:
         r = srch.reader()
+        lazy = {}
+        if record.get("overlap"):
+            # terms_within() returns a lazy iterator: a caller may hold several at once and draw from
+            # them in turn (merging the expansions of two words, say). Each must still yield its own answer.
+            try:
+                its = [(pi, iter(r.terms_within("w", word, d, prefix=p))) for pi, (word, d, p) in enumerate(record["probes"])]
+                for pi, _ in its:
+                    lazy[pi] = set()
+                while its:
+                    nxt = []
+                    for pi, it in its:
+                        try:
+                            lazy[pi].add(next(it))
+                            nxt.append((pi, it))
+                        except StopIteration:
+                            pass
+                    its = nxt
+            except (SimAbort, SimKilled, HarnessError):
+                raise
+            except Exception as e:  # noqa
+                raise Violation("terms_within_raised", "%s: interleaved terms_within iterators raised %s: %s" % (layout, type(e).__name__, e),
+                                sig="terms_within_raised:" + exc_sig(e))
+            s.count("overlapping_expansions")
         for pi, (word, d, p) in enumerate(record["probes"]):
             s.count("probes")
             try:
-                tw = set(r.terms_within("w", word, d, prefix=p))
+                tw = lazy[pi] if pi in lazy else set(r.terms_within("w", word, d, prefix=p))
             except (SimAbort, SimKilled, HarnessError):
                 raise
             except Exception as e:  # noqa
